@@ -8,7 +8,8 @@
    A ARGS t0arg twice OPS           make_absolute(t0arg) (twice), apply OPS      -> E | bools|state
    P hex absarg OPS                 parse(str), apply OPS                        -> E | U | bools|state
    PS kind hexA hexB absarg OPS     (S only) the interval the text kind/A/B describes -> U | X | bools
-   Q start end ty absarg OPS        parse(tuple)                                 -> E | bools|state *)
+   Q start end ty absarg OPS        parse(tuple)                                 -> E | bools|state
+   T ARGS absarg OPS                parse(TimeRange(ARGS), absolute=absarg)      -> E | bools|state *)
 let fail s = failwith ("bad token " ^ s)
 let ext_tok s = match s with
   | "i" -> PInf | "n" -> NInf | _ -> Fin (z_of_int (int_of_string s))
@@ -60,6 +61,9 @@ let () =
              | ["P"; h; ab; ops] ->
                 (match parse_gen f (str_tok h) (ob_tok ab) with
                  | PErr -> "E" | PUnsup -> "U" | POk r -> show_run f r (ops_tok ops))
+             | ["T"; a; b; c; d; ab; ops] ->
+                (match parse_obj (init_gen f (args_of a b c d)) (ob_tok ab) with
+                 | ValueError -> "E" | Ok r -> show_run f r (ops_tok ops))
              | ["Q"; a; b; ty; ab; ops] ->
                 (match parse_tuple_gen f (targ_tok a) (targ_tok b) (if ty = "-" then None else Some (str_tok ty)) (ob_tok ab) with
                  | ValueError -> "E" | Ok r -> show_run f r (ops_tok ops))
@@ -94,6 +98,11 @@ let () =
                  | `V x, `V y -> dom ops (fun () -> bools (spec_run (describe (describe_text sh (ob_tok ab) x y)) ops))
                  | `U, _ | _, `U -> "U"
                  | _, _ -> "X")
+             | ["T"; a; b; c; d; ab; ops] ->
+                let v = describe (args_of a b c d) and ops = ops_tok ops in
+                (match ob_tok ab with
+                 | Some k when k <> v.iabs -> "E"
+                 | _ -> dom ops (fun () -> bools (spec_run v ops)))
              | ["Q"; a; b; ty; ab; ops] ->
                 let ops = ops_tok ops in
                 let k = if ty = "-" then Some (ob_tok ab) else if ty = "616273" then Some (Some true) else if ty = "72656c" then Some (Some false) else None in
